@@ -6,7 +6,12 @@ namespace Ldk.Chan
 
 /-! ### when two nodes have the same view -/
 
+theorem viewFeerate_of {n n' : Node} (g : Bool) (h1 : n'.feerate = n.feerate) (h2 : n'.pendingFee = n.pendingFee) :
+    n'.viewFeerate g = n.viewFeerate g := by
+  unfold Node.viewFeerate; rw [h1, h2]
+
 theorem buildView_eq_of {n n' : Node} (l g : Bool) (hv : n'.valueToSelf = n.valueToSelf)
+    (hfr : n'.viewFeerate g = n.viewFeerate g)
     (h1 : (n'.inb.filter (fun h => h.st.included g)).map (fun h => (h.id, h.amt))
         = (n.inb.filter (fun h => h.st.included g)).map (fun h => (h.id, h.amt)))
     (h2 : (n'.outb.filter (fun h => h.st.included g)).map (fun h => (h.id, h.amt))
@@ -24,7 +29,7 @@ theorem buildView_eq_of {n n' : Node} (l g : Bool) (hv : n'.valueToSelf = n.valu
     intro b L; simp [List.map_map]
   unfold Node.buildView
   simp only
-  rw [e1, e2, e1 _ (List.filter _ n.inb), e2 _ (List.filter _ n.outb), h1, h2, h3, h4, hv]
+  rw [e1, e2, e1 _ (List.filter _ n.inb), e2 _ (List.filter _ n.outb), h1, h2, h3, h4, hv, hfr]
 
 theorem proj_map_congr {α β : Type} (l : List α) (g : α → α) (p : α → Bool) (F : α → β)
     (hp : ∀ x ∈ l, p (g x) = p x) (hF : ∀ x ∈ l, F (g x) = F x) :
@@ -43,13 +48,14 @@ theorem proj_map_congr {α β : Type} (l : List α) (g : α → α) (p : α → 
 /-- an id- and amount-preserving rewrite of the per-HTLC states that changes neither inclusion nor the
     claimed-value test (for `generated_by_local = g`) leaves the view unchanged -/
 theorem buildView_map {n n' : Node} (l g : Bool) (gi : InHtlc → InHtlc) (go : OutHtlc → OutHtlc)
-    (hv : n'.valueToSelf = n.valueToSelf) (hi : n'.inb = n.inb.map gi) (ho : n'.outb = n.outb.map go)
+    (hv : n'.valueToSelf = n.valueToSelf) (hfr : n'.viewFeerate g = n.viewFeerate g)
+    (hi : n'.inb = n.inb.map gi) (ho : n'.outb = n.outb.map go)
     (hgi : ∀ h ∈ n.inb, (gi h).id = h.id ∧ (gi h).amt = h.amt ∧ (gi h).st.included g = h.st.included g ∧
       (!((gi h).st.included g) && (gi h).st.hasPreimage) = (!(h.st.included g) && h.st.hasPreimage))
     (hgo : ∀ h ∈ n.outb, (go h).id = h.id ∧ (go h).amt = h.amt ∧ (go h).st.included g = h.st.included g ∧
       (!((go h).st.included g) && (go h).st.hasPreimage) = (!(h.st.included g) && h.st.hasPreimage)) :
     n'.buildView l g = n.buildView l g := by
-  apply buildView_eq_of l g hv
+  apply buildView_eq_of l g hv hfr
   · rw [hi]; exact proj_map_congr _ gi _ _ (fun x hx => (hgi x hx).2.2.1) (fun x hx => by rw [(hgi x hx).1, (hgi x hx).2.1])
   · rw [ho]; exact proj_map_congr _ go _ _ (fun x hx => (hgo x hx).2.2.1) (fun x hx => by rw [(hgo x hx).1, (hgo x hx).2.1])
   · rw [hi]; exact proj_map_congr _ gi _ _ (fun x hx => (hgi x hx).2.2.2) (fun x hx => (hgi x hx).2.1)
@@ -76,14 +82,45 @@ theorem sorted_unique {α : Type} {key : α → Nat} {l : List α} (hs : Sorted 
     (e : key x = key y) : x = y := sorted_unique' hs hx hy e
 
 /-- processing any message other than a revoke_and_ack leaves the signing view unchanged -/
-theorem onMsg_signing_view {n n' : Node} {total : Nat} {m : Msg} {ok : Bool} (hok : NodeOK n)
-    (h : n.onMsg total m = some (n', ok)) (hm : m ≠ .raa) : n'.buildView false true = n.buildView false true := by
+theorem onMsg_signing_fee {n n' : Node} {total : Nat} {m : Msg} {ok : Bool} (hw : n.feeWF = true)
+    (h : n.onMsg total m = some (n', ok)) (hm : m ≠ .raa) : n'.viewFeerate true = n.viewFeerate true := by
+  obtain ⟨h1, h2, h3, h4⟩ := onMsg_fee_fields h
+  unfold Node.viewFeerate
+  rw [h2, h3]
   cases m with
   | raa => exact absurd rfl hm
+  | add _ _ => rfl
+  | fulfill _ => rfl
+  | fail _ => rfl
+  | cs c =>
+    simp only [msgFee, csFee]
+    cases n.pendingFee with
+    | none => rfl
+    | some p => obtain ⟨f, st⟩ := p; cases st <;> rfl
+  | fee f =>
+    have hf := h4 f rfl
+    unfold Node.feeWF at hw
+    simp only [msgFee]
+    cases hp : n.pendingFee with
+    | none => rfl
+    | some p =>
+      obtain ⟨f', st⟩ := p
+      rw [hp, hf] at hw
+      cases st <;> first | rfl | (exfalso; simp at hw)
+
+theorem onMsg_signing_view {n n' : Node} {total : Nat} {m : Msg} {ok : Bool} (hok : NodeOK n) (hw : n.feeWF = true)
+    (h : n.onMsg total m = some (n', ok)) (hm : m ≠ .raa) : n'.buildView false true = n.buildView false true := by
+  have hfr := onMsg_signing_fee hw h hm
+  cases m with
+  | raa => exact absurd rfl hm
+  | fee f =>
+    obtain ⟨_, _, e⟩ := onMsg_fee h
+    subst e
+    exact buildView_eq_of false true rfl hfr rfl rfl rfl rfl
   | add id amt =>
     obtain ⟨_, _, e⟩ := onMsg_add h
     subst e
-    refine buildView_eq_of false true ?_ ?_ ?_ ?_ ?_
+    refine buildView_eq_of false true ?_ hfr ?_ ?_ ?_ ?_
     · rfl
     · simp [List.filter_append, in_announced_signing.1]
     · rfl
@@ -92,13 +129,13 @@ theorem onMsg_signing_view {n n' : Node} {total : Nat} {m : Msg} {ok : Bool} (ho
   | cs c =>
     obtain ⟨e, _⟩ := onMsg_cs h
     subst e
-    exact buildView_map false true _ _ rfl rfl rfl
+    exact buildView_map false true _ _ rfl hfr rfl rfl
       (fun h _ => ⟨rfl, rfl, (in_onCS_signing h.st).1, (in_onCS_signing h.st).2⟩)
       (fun h _ => ⟨rfl, rfl, (out_onCS_signing h.st).1, (out_onCS_signing h.st).2⟩)
   | fulfill id =>
     obtain ⟨⟨x, hx, hxid, hxst⟩, _, e⟩ := onMsg_fulfill h
     subst e
-    refine buildView_map false true (fun h => h) (fun h => if h.id = id then { h with st := .remoteRemoved true } else h) rfl
+    refine buildView_map false true (fun h => h) (fun h => if h.id = id then { h with st := .remoteRemoved true } else h) rfl hfr
       (by simp) rfl (fun h _ => ⟨rfl, rfl, rfl, rfl⟩) ?_
     intro h hh
     by_cases e : h.id = id
@@ -110,7 +147,7 @@ theorem onMsg_signing_view {n n' : Node} {total : Nat} {m : Msg} {ok : Bool} (ho
   | fail id =>
     obtain ⟨⟨x, hx, hxid, hxst⟩, _, e⟩ := onMsg_fail h
     subst e
-    refine buildView_map false true (fun h => h) (fun h => if h.id = id then { h with st := .remoteRemoved false } else h) rfl
+    refine buildView_map false true (fun h => h) (fun h => if h.id = id then { h with st := .remoteRemoved false } else h) rfl hfr
       (by simp) rfl (fun h _ => ⟨rfl, rfl, rfl, rfl⟩) ?_
     intro h hh
     by_cases e : h.id = id
@@ -125,7 +162,7 @@ theorem onMsg_signing_view {n n' : Node} {total : Nat} {m : Msg} {ok : Bool} (ho
 /-- every commitment_signed of `a` still in the a→b stream is `a`'s current signing view -/
 def ViewA (s : Sys) : Prop := ∀ c, Msg.cs c ∈ s.fullAB → c = s.a.buildView false true
 
-theorem ViewA.init (va vb : Nat) : ViewA (Sys.init va vb) := by
+theorem ViewA.init (va vb f0 : Nat) : ViewA (Sys.init va vb f0) := by
   intro c hc
   simp [Sys.fullAB, Sys.init, full, Node.init] at hc
 
@@ -134,7 +171,12 @@ theorem ViewA.init (va vb : Nat) : ViewA (Sys.init va vb) := by
 theorem pause_signing_view {n : Node} : n.pause.buildView false true = n.buildView false true := by
   cases hp : n.paused
   · rw [pause_unpaused hp]
-    refine buildView_eq_of false true rfl ?_ ?_ ?_ ?_
+    have hfr : Node.viewFeerate { n with inb := n.inb.filter notRA, nextInId := n.nextInId - raCount n.inb, outb := n.outb.map unRR, pendingFee := pauseFee n.pendingFee, paused := true } true = n.viewFeerate true := by
+      unfold Node.viewFeerate pauseFee
+      cases n.pendingFee with
+      | none => rfl
+      | some p => obtain ⟨f, st⟩ := p; cases st <;> rfl
+    refine buildView_eq_of false true rfl hfr ?_ ?_ ?_ ?_
     · show ((n.inb.filter notRA).filter _).map _ = _
       rw [List.filter_filter]
       congr 1
@@ -153,10 +195,19 @@ theorem pause_signing_view {n : Node} : n.pause.buildView false true = n.buildVi
       exact proj_map_congr _ unRR _ _ (fun x _ => by rw [unRR_st]; cases x.st <;> rfl) (fun x _ => unRR_amt x)
   · rw [pause_paused hp]
 
+theorem add_not_feeMsgs (n : Node) (id amt : Nat) : Msg.add id amt ∉ n.feeMsgs := by
+  unfold Node.feeMsgs
+  split <;> simp
+
+theorem cs_not_feeMsgs (n : Node) (c : Commit) : Msg.cs c ∉ n.feeMsgs := by
+  unfold Node.feeMsgs
+  split <;> simp
+
 theorem cs_mem_lastBatch {n : Node} {c : Commit} (h : Msg.cs c ∈ n.lastBatch) : c = n.buildView false true := by
   unfold Node.lastBatch at h
   simp only [List.mem_append, List.mem_map, List.mem_singleton, Msg.cs.injEq] at h
-  rcases h with ((h | h) | h) | h
+  rcases h with (((h | h) | h) | h) | h
+  · exact absurd h (cs_not_feeMsgs n c)
   · obtain ⟨_, _, h⟩ := h; cases h
   · obtain ⟨_, _, h⟩ := h; cases h
   · obtain ⟨_, _, h⟩ := h; cases h
@@ -178,7 +229,8 @@ theorem cs_mem_batch {n : Node} {adds fu fa : List Nat} {c : Commit} (h : Msg.cs
     c = (n.built adds fu fa).buildView false true := by
   unfold batchOf at h
   simp only [List.mem_append, List.mem_map, List.mem_singleton, Msg.cs.injEq] at h
-  rcases h with ((h | h) | h) | h
+  rcases h with (((h | h) | h) | h) | h
+  · exact absurd h (cs_not_feeMsgs n c)
   · exfalso
     have : ∀ (amts : List Nat) (k : Nat), Msg.cs c ∉ mkAdds k amts := by
       intro amts
@@ -240,7 +292,7 @@ theorem ViewA.step {s s' : Sys} {e : Ev} (hv : ViewA s) (hg : GoodA s) (hb : Bas
       rw [this]; exact hv c (by rw [hf]; exact List.mem_cons_of_mem _ hc)
     · obtain ⟨hpa, m, rest, n, okb, hq, hm, e⟩ := step_recv_true h0
       have hsa : s'.a = n := by rw [e]
-      have hfw : s'.fullAB = s.fullAB ++ owedFor m := by rw [e]; exact fullAB_after_recv_true hb hpa _ hm
+      have hfw : s'.fullAB = s.fullAB ++ owedFor m := by rw [e]; exact fullAB_after_recv_true hb hpa _ _ hm
       have hsub : Msg.cs c ∈ s.fullAB := by
         rw [hfw] at hc
         rcases List.mem_append.1 hc with hc | hc
@@ -253,11 +305,11 @@ theorem ViewA.step {s s' : Sys} {e : Ev} (hv : ViewA s) (hg : GoodA s) (hb : Bas
         have h2 := cs_mem_tok hsub 0
         have h3 : (cfgA s 0).bwd.head? = some .raa := by
           show (List.filterMap (tokB 0) s.fullBA).head? = _
-          rw [fullBA_pop_recv_true hb' hq n (s.agreed && okb)]; rfl
+          rw [fullBA_pop_recv_true hb' hq n (s.agreed && okb) (s.feeAgreed && s.a.feeOk Msg.raa)]; rfl
         simp only [cfgA] at h1 h3
         rw [h2, h3] at h1
         cases h1
-      rw [hsa, onMsg_signing_view hb.ok hm hnr]
+      rw [hsa, onMsg_signing_view hb.ok hb.wf hm hnr]
       exact hv c hsub
   | disconnect =>
     rw [fullAB_disconnect h0] at hc
@@ -281,6 +333,20 @@ theorem ViewA.step {s s' : Sys} {e : Ev} (hv : ViewA s) (hg : GoodA s) (hb : Bas
       obtain ⟨_, _, _, _, _, en, _⟩ := reestablish_some hr
       have : s'.a.buildView false true = s.a.buildView false true := by rw [e, en]; rfl
       rw [this]; exact hv c hc
+  | fee x f =>
+    cases x
+    · rw [fullAB_fee_false h0] at hc
+      obtain ⟨_, _, _, _, _, e⟩ := step_fee_false h0
+      have : s'.a = s.a := by rw [e]
+      rw [this]; exact hv c hc
+    · -- the funder is not awaiting a revoke_and_ack, so no commitment_signed of its is in flight
+      rw [fullAB_fee_true h0] at hc
+      obtain ⟨_, _, haw, _, _, e⟩ := step_fee_true h0
+      exfalso
+      have h1 := good_no_cs _ (hg 0)
+      have h2 := cs_mem_tok hc 0
+      simp only [cfgA, haw, Bool.false_or, Bool.not_eq_true'] at h1
+      rw [h2] at h1; cases h1
 
 /-! ### what can enter the a→b stream -/
 
@@ -327,6 +393,10 @@ theorem fullAB_mem_step {s s' : Sys} {e : Ev} (hb : Base s) (h : stepG s e = som
     cases y
     · rw [fullAB_reest_false h0] at hx; exact Or.inl hx
     · rw [fullAB_reest_true hb h0] at hx; exact Or.inl hx
+  | fee y f =>
+    cases y
+    · rw [fullAB_fee_false h0] at hx; exact Or.inl hx
+    · rw [fullAB_fee_true h0] at hx; exact Or.inl hx
 
 /-! ### where the elements of the new lists come from -/
 
@@ -382,6 +452,10 @@ theorem onMsg_from {n n' : Node} {total : Nat} {m : Msg} {ok : Bool} (h : n.onMs
     · intro h hh
       obtain ⟨x, hx, e⟩ := List.mem_map.1 hh
       subst e; exact Or.inl ⟨x, (List.mem_filter.1 hx).1, (raaMapIn_id x).symm, (raaMapIn_amt x).symm⟩
+  | fee f =>
+    obtain ⟨_, _, e⟩ := onMsg_fee h
+    subst e
+    exact ⟨rfl, fun h hh => ⟨h, hh, rfl, rfl⟩, fun h hh => Or.inl ⟨h, hh, rfl, rfl⟩⟩
 
 theorem foldl_setIn_from (st : InState) (ids : List Nat) : ∀ (l : List InHtlc),
     ∀ h ∈ ids.foldl (fun l id => setIn l id (fun _ => st)) l, ∃ x ∈ l, x.id = h.id ∧ x.amt = h.amt := by
@@ -443,7 +517,8 @@ theorem add_mem_batch {n : Node} {adds fu fa : List Nat} {id amt : Nat} (h : Msg
     Msg.add id amt ∈ mkAdds n.nextOutId adds := by
   unfold batchOf at h
   simp only [List.mem_append, List.mem_map, List.mem_singleton] at h
-  rcases h with ((h | h) | h) | h
+  rcases h with (((h | h) | h) | h) | h
+  · exact absurd h (add_not_feeMsgs n id amt)
   · exact h
   · obtain ⟨_, _, h⟩ := h; cases h
   · obtain ⟨_, _, h⟩ := h; cases h
@@ -457,7 +532,7 @@ structure Amt (s : Sys) : Prop where
   b1 : ∀ h' ∈ s.b.inb, h'.id < s.a.nextOutId
   b2 : ∀ id amt, Msg.add id amt ∈ s.fullAB → id < s.a.nextOutId
 
-theorem Amt.init (va vb : Nat) : Amt (Sys.init va vb) := by
+theorem Amt.init (va vb f0 : Nat) : Amt (Sys.init va vb f0) := by
   refine ⟨?_, ?_, ?_, ?_⟩
   · intro h hh; cases hh
   · intro id amt h x hx; cases hx
@@ -468,7 +543,8 @@ theorem add_mem_lastBatch {n : Node} {id amt : Nat} (h : Msg.add id amt ∈ n.la
     ∃ x ∈ n.outb, x.id = id ∧ x.amt = amt := by
   unfold Node.lastBatch at h
   simp only [List.mem_append, List.mem_map, List.mem_singleton] at h
-  rcases h with ((h | h) | h) | h
+  rcases h with (((h | h) | h) | h) | h
+  · exact absurd h (add_not_feeMsgs n id amt)
   · obtain ⟨x, hx, e⟩ := h
     injection e with e1 e2
     exact ⟨x, (List.mem_filter.1 hx).1, e1, e2⟩
@@ -702,5 +778,22 @@ theorem Amt.step {s s' : Sys} {e : Ev} (ha : Amt s) (hb : Base s) (h : stepG s e
       have hsa : s'.a.outb = s.a.outb := by rw [e, en]
       have hsb : s'.b = s.b := by rw [e]
       exact generic (by rw [hsa]; exact same _ _ _) (by rw [hsb]; exact same _ _ _) (by rw [e, en]) hadd'
+
+  | fee y f =>
+    have hadd' : ∀ id amt, Msg.add id amt ∈ s'.fullAB → Msg.add id amt ∈ s.fullAB := by
+      intro id amt hm
+      rcases hadd id amt hm with h1 | ⟨_, _, _, e1, _⟩ | ⟨e1, _⟩
+      · exact h1
+      · cases e1
+      · cases e1
+    cases y
+    · obtain ⟨_, _, _, _, _, e⟩ := step_fee_false h0
+      have hsa : s'.a = s.a := by rw [e]
+      have hsb : s'.b.inb = s.b.inb := by rw [e]
+      exact generic (by rw [hsa]; exact same _ _ _) (by rw [hsb]; exact same _ _ _) (by rw [hsa]) hadd'
+    · obtain ⟨_, _, _, _, _, e⟩ := step_fee_true h0
+      have hsa : s'.a.outb = s.a.outb := by rw [e]
+      have hsb : s'.b = s.b := by rw [e]
+      exact generic (by rw [hsa]; exact same _ _ _) (by rw [hsb]; exact same _ _ _) (by rw [e]) hadd'
 
 end Ldk.Chan
